@@ -23,7 +23,7 @@ def set_fixed(prog, fixed):
     prog.fixed = [(re.compile(rx), what) for rx, what in fixed]
 
 
-def fn_mode(prog, bounds, variant='entrait', opts_only=None, fixed=(), name='foo', trait_name='Foo'):
+def fn_mode(prog, bounds, variant='entrait', opts_only=None, fixed=(), name='foo', trait_name='Foo', with_spec=True):
     gen = inputs.Gen(prog, bounds)
     set_fixed(prog, fixed)
 
@@ -33,9 +33,13 @@ def fn_mode(prog, bounds, variant='entrait', opts_only=None, fixed=(), name='foo
         ex.notes['input'] = dict(mode='fn', variant=variant, gen=gen, opts_only=opts_only, name=name, trait_name=trait_name)
 
         def target(ex, attr, item):
+            attr0, item0 = clone_val(attr), clone_val(item)   # pristine copies for the spec (lazy leaves shared by key)
             apply_variant(ex, variant, Ptr(attr.fields, attr.names.index('opts')))
-            ex.notes['attr'] = attr
-            return ex.run_body(prog.bodies['entrait_for_single_fn'], [new_cell(attr), item])
+            out = ex.run_body(prog.bodies['entrait_for_single_fn'], [new_cell(attr), item])
+            if with_spec:
+                from . import spec
+                ex.notes['obligations'] = spec.spec_fn_mode(ex, variant, attr0, item0, out)
+            return out
         return target, [attr, item]
     return setup
 
